@@ -222,9 +222,9 @@ def ite_simplify(e, known_true=frozenset(), known_false=frozenset()):
         return e
     if isinstance(e, Ite):
         c, a, b = e.args
-        if c in known_true or sp.Not(c) in known_false:
+        if c in known_true or sp.Not(c) in known_false or (isinstance(c, sp.And) and all(x in known_true for x in c.args)):
             return ite_simplify(a, known_true, known_false)
-        if c in known_false or sp.Not(c) in known_true:
+        if c in known_false or sp.Not(c) in known_true or (isinstance(c, sp.And) and any(x in known_false or sp.Not(x) in known_true for x in c.args)):
             return ite_simplify(b, known_true, known_false)
         return Ite(c, ite_simplify(a, known_true | {c}, known_false), ite_simplify(b, known_true, known_false | {c}))
     if not e.has(Ite):
@@ -868,7 +868,12 @@ class A:
                     raise Unsupported("full-rank boolean mask on a multi-axis array (flattening)")
                 raise ShapeError("boolean index did not match indexed array along axis 0")
             self._dom(idx.dom, "boolean-mask index")
-            return A(self.axes, self.e, sp.And(self.dom, idx.e))
+            nd = sp.And(self.dom, idx.e)
+            e = self.e
+            if isinstance(e, sp.Basic) and e.has(Ite):
+                # the selected elements exist only where the new domain holds: if-then-else nodes it decides are resolved
+                e = ite_simplify(e, frozenset(nd.args if isinstance(nd, sp.And) else [nd]) | {nd})
+            return A(self.axes, e, nd)
         if idx is Ellipsis:
             return self  # view of everything (x[...] )
         if isinstance(idx, tuple):
@@ -1353,6 +1358,10 @@ class EA:
             return o.a
         if isinstance(o, (A, Dep)):
             raise Unsupported("explicit array combined with a generic-element array")
+        if isinstance(o, S):
+            b = np.empty((), dtype=object)
+            b[()] = o
+            return b
         return o
 
     def _ew(self, o, f, swap=False):
